@@ -48,8 +48,14 @@ static void cstl_vector_set_capacity(
      * the vector always (quietly) stores space for one extra
      * element at the end to use as scratch space for exchanging
      * elements during sort and reverse operations
+     *
+     * a capacity whose size in bytes can't be represented
+     * is handled like an allocation that failed
      */
-    e = realloc(v->elem.base, (sz + 1) * v->elem.size);
+    e = NULL;
+    if (v->elem.size == 0 || sz < SIZE_MAX / v->elem.size) {
+        e = realloc(v->elem.base, (sz + 1) * v->elem.size);
+    }
     if (e != NULL) {
         v->elem.base = e;
         v->cap = sz;
